@@ -83,6 +83,7 @@ func runPair(c *core.Ctx, name string, root *fam.Spec, a, b gen.Config, rel func
 
 // C16 — output-shaping options change only what they name.
 func C16(c *core.Ctx) {
+	c.NoDefaultModeTwin = true // the option sets of this driver include the run without --extra-imports
 	c.Explanation = engineAText +
 		"C16 (A-REL) is relational: each member of the broad union of families is generated twice, under two option sets that differ in exactly one option, and the two skeleton files are compared after " +
 		"replacing placeholders by atom names: --only-models on/off => identical type and constant declarations, and with it on no function, method or variable and no validation-support import; " +
